@@ -284,11 +284,19 @@ class Checker:
                 items.append((vc, o, vc.query(o, 1)))
 
         def run(item):
-            vc, o, q = item
+            vc, o, q = item[:3]
             tmo = 120 if 'slow' in o.tags else self.timeout
             if o.expect == 'sat':
                 # vacuity covers: one solver, short timeout (undecided covers are reported, not failed)
                 return vc, o, smt.solve(q, wd.path, vc.fname + '##' + o.name, 5, order=('z3new',))
+            # sliced variant first: only the assumptions that touch a heap family the goal reads, and only the unfoldings of
+            # the recursive spec functions the goal names (dropping assumptions is sound; what it does not prove goes on)
+            ql = vc.query(o, 1, noq=bool(vc.quant_defs), lite=True) if o.expect == 'unsat' else None
+            if ql is not None:
+                r0 = smt.solve(ql, wd.path, vc.fname + '##lite##' + o.name, min(tmo, 4), order=('z3new',))
+                if r0['status'] == 'unsat':
+                    r0['variant'] = 'goal-relevant assumptions only'
+                    return vc, o, r0
             if vc.quant_defs:
                 # instantiate-only variant first: assumed universal clauses are used through their ground instances
                 # alone (dropping the quantified originals is sound: fewer assumptions)
@@ -472,7 +480,12 @@ class Checker:
             if r['status'] != o.expect:
                 return vc, o, r
             other = ['cvc5', 'z3'] if r['solver'] == 'z3new' else ['z3new', 'cvc5']
-            q = vc.query(o, r.get('fuel', 1))
+            q = None
+            if str(r.get('variant', '')).startswith('goal-relevant'):
+                # the answer came from the sliced query: the second solver gets the same one
+                q = vc.query(o, 1, noq=bool(vc.quant_defs), lite=True)
+            if q is None:
+                q = vc.query(o, r.get('fuel', 1))
             r2 = smt.solve(q, wd.path, vc.fname + '##x##' + o.name, self.timeout, order=other)
             r = dict(r)
             r['second'] = (r2['solver'], r2['status'], round(r2['time'], 3))
@@ -504,6 +517,10 @@ class Checker:
         kinds = {}
         for vc, o, r in results:
             kinds[o.kind] = kinds.get(o.kind, 0) + 1
+        by_variant = {}
+        for vc, o, r in discharged:
+            v_ = r.get('variant', 'full query')
+            by_variant[v_] = by_variant.get(v_, 0) + 1
         n_claimed = len(results) - len(kf_hits)
         second = [r.get('second') for _, _, r in results if r.get('second')]
         ev = {
@@ -515,6 +532,7 @@ class Checker:
                                  'z3 5.1.0 (z3-new), z3 4.8.12, cvc5 1.0.3'],
                 'functions_under_contract': sorted(short_fn(prog, f) for f in vcs),
                 'obligations_by_kind': kinds, 'discharged_by_solver': by_solver, 'solver_time_s': round(solver_time, 2),
+                'discharged_by_query_variant': by_variant,
                 'cross_checked_by_second_solver': sum(1 for s in second if s[1] in ('sat', 'unsat')),
                 'inlined_functions': sorted(inlined), 'trusted_models_used': sorted(models), 'havocked_calls': sorted(havoc),
                 'known_finding_obligations': [o.name for o, _ in kf_hits],
